@@ -122,6 +122,11 @@ func noValueComparison(p *core.Program, fn *ssa.Function) (bool, string) {
 func runSeq(p *core.Program, r *core.Report, queue bool) {
 	c := rc{p, r}
 	if queue {
+		noSingledOutValue(c, []string{"queue/queue.go", "queue/lqueue.go", "list/dlist.go"}, nil)
+	} else {
+		noSingledOutValue(c, []string{"stack/stack.go", "stack/lstack.go", "list/dlist.go"}, nil)
+	}
+	if queue {
 		workOnEveryPath(c, "queue.(*Queue).Clear", "items reset on every path", "Queue", "items", nil, "Clear returns on a path that leaves the elements in place")
 		workOnEveryPath(c, "queue.(*LQueue).Clear", "counter reset on every path", "LQueue", "n", nil, "Clear returns on a path that leaves the elements in place")
 	}
